@@ -101,8 +101,8 @@ theorem live_step {sys : Sys} {t a rest} (hT : TokInv sys) (hI : LiveInv sys)
         · exact Or.inr ⟨h.1, Or.inr (by first | omega | (dsimp only; omega))⟩
   | respConsume id c r =>
     cases c with
-    | plain tag =>
-      rw [after_eq (show step .repaired sys.st (.respConsume id (.plain tag) r) = _ from rfl)]
+    | plain tag fl =>
+      rw [after_eq (show step .repaired sys.st (.respConsume id (.plain tag fl) r) = _ from rfl)]
       have hK := cnt_step fK [] hget
       have hM := cnt_step fM [] hget
       simp only [fK, fM, wsum_cons, wsum_nil, Nat.add_zero, Nat.zero_add] at hK hM
